@@ -526,7 +526,7 @@ def run_aggs(case):
 
 @st.composite
 def agg_cases(draw, tier):
-    data = {"default": draw(st.lists(st.tuples(st.sampled_from(gs.NODES), st.sampled_from(gs.PREDS), st.one_of(st.sampled_from(AGG_LITS), st.sampled_from(AGG_LITS[:4] + AGG_LITS[-5:]), st.sampled_from(gs.NODES))).map(list),
+    data = {"default": draw(st.lists(st.tuples(st.sampled_from(gs.NODES), st.sampled_from(gs.PREDS), st.one_of(st.sampled_from(AGG_LITS), st.sampled_from(AGG_LITS[:4] + AGG_LITS[-5:] + [gs.LITS[5], gs.LITS[4]]), st.sampled_from(gs.NODES))).map(list),
                                      min_size=3, max_size=10, unique_by=repr)), "g1": [], "g2": []}
     pool = data["default"]
     shape = draw(st.integers(0, 3))
@@ -563,6 +563,13 @@ def agg_cases(draw, tier):
         else:
             a.append(None)
         aggs.append(a)
+    if any(a[1] == "group_concat" for a in aggs) and draw(st.booleans()):
+        # strings that are empty or hold the default separator beside other values of the same subject and predicate, anywhere in
+        # the order of arrival: pieces that a concatenation can lose or double without any other aggregate noticing
+        t = draw(st.sampled_from(data["default"]))
+        extra = [t[0], t[1], draw(st.sampled_from([gs.LITS[5], gs.LITS[5], ["l", " ", None, None], gs.LITS[4]]))]
+        if extra not in data["default"]:
+            data["default"].insert(draw(st.integers(0, len(data["default"]))), extra)
     having = None
     if draw(st.integers(0, 3)) == 0:
         having = [draw(st.integers(0, 2)), draw(st.sampled_from([">", "<", "=", ">=", "!="])), draw(st.sampled_from(gs.LITS[:3]))]
